@@ -19,6 +19,8 @@ pub enum HK {
     Spin,
     /// the op was unwound by a panic (first such event of an iteration = origin of the panic)
     Unwind,
+    /// harness note (TLS / lazy_static life cycle): pc = key, res = code
+    Note,
 }
 
 #[derive(Clone, Debug, PartialEq, Eq, Hash, serde::Serialize, serde::Deserialize)]
@@ -39,6 +41,7 @@ pub fn history_text(h: &[HEv]) -> String {
             HK::Ret => "r",
             HK::Spin => "s",
             HK::Unwind => "u",
+            HK::Note => "n",
         };
         s.push_str(&format!("{}{}.{}", k, e.tid, e.pc));
         if let Some(v) = e.res {
@@ -220,6 +223,99 @@ thread_local! {
 }
 
 type LArc = loom::sync::Arc<Payload>;
+
+// ---- thread_local! / lazy_static! objects of the harness (C17)
+pub const NOTE_TLS_INIT: u64 = 1;
+pub const NOTE_TLS_DROP: u64 = 2;
+pub const NOTE_TLS_DROP_SAW_OTHER_ALIVE: u64 = 3;
+pub const NOTE_LAZY_INIT: u64 = 4;
+pub const NOTE_LAZY_DROP: u64 = 5;
+pub const NOTE_LAZY_SEEN: u64 = 6;
+
+thread_local! {
+    /// DSL thread currently executing an op (set immediately before a TLS / lazy access)
+    static CUR_TID: std::cell::Cell<u8> = std::cell::Cell::new(0);
+    /// which TLS keys the DSL threads have initialised in this iteration: [tid][key]
+    static TLS_INITED: RefCell<Vec<[bool; 2]>> = RefCell::new(vec![[false; 2]; MAX_THREADS]);
+    /// stamp source for lazy instances
+    static LAZY_STAMP: std::cell::Cell<u64> = std::cell::Cell::new(0);
+    /// should lazy initialisers contain a scheduling point?
+    static LAZY_INIT_YIELDS: std::cell::Cell<bool> = std::cell::Cell::new(false);
+}
+
+pub struct TlsVal {
+    key: u8,
+    owner: u8,
+    cell: loom::cell::UnsafeCell<u64>,
+}
+impl TlsVal {
+    fn new(key: u8) -> TlsVal {
+        let owner = CUR_TID.with(|c| c.get());
+        rec(owner, key as usize, HK::Note, Some(NOTE_TLS_INIT));
+        TLS_INITED.with(|t| t.borrow_mut()[owner as usize][key as usize] = true);
+        TlsVal { key, owner, cell: loom::cell::UnsafeCell::new(0) }
+    }
+}
+impl Drop for TlsVal {
+    fn drop(&mut self) {
+        if std::thread::panicking() {
+            return;
+        }
+        rec(self.owner, self.key as usize, HK::Note, Some(NOTE_TLS_DROP));
+        // the thread is finishing: every thread-local it initialised reports AccessError now
+        let other = 1 - self.key;
+        let other_inited = TLS_INITED.with(|t| t.borrow()[self.owner as usize][other as usize]);
+        if other_inited {
+            let alive = if other == 0 { KEY0.try_with(|_| ()).is_ok() } else { KEY1.try_with(|_| ()).is_ok() };
+            if alive {
+                rec(self.owner, self.key as usize, HK::Note, Some(NOTE_TLS_DROP_SAW_OTHER_ALIVE));
+            }
+        }
+        self.cell.with_mut(|_| ());
+    }
+}
+loom::thread_local! {
+    static KEY0: TlsVal = TlsVal::new(0);
+    static KEY1: TlsVal = TlsVal::new(1);
+}
+
+pub struct LazyVal {
+    key: u8,
+    stamp: u64,
+    cell: loom::cell::UnsafeCell<u64>,
+}
+impl LazyVal {
+    fn new(key: u8) -> LazyVal {
+        let t = CUR_TID.with(|c| c.get());
+        let stamp = LAZY_STAMP.with(|c| {
+            c.set(c.get() + 1);
+            c.get()
+        });
+        rec(t, key as usize, HK::Note, Some(NOTE_LAZY_INIT + stamp * 16));
+        let v = LazyVal { key, stamp, cell: loom::cell::UnsafeCell::new(0) };
+        v.cell.with_mut(|_| ());
+        if LAZY_INIT_YIELDS.with(|c| c.get()) {
+            // a scheduling point inside the initialiser: another thread may initialise meanwhile
+            loom::thread::yield_now();
+        }
+        v
+    }
+}
+impl Drop for LazyVal {
+    fn drop(&mut self) {
+        if std::thread::panicking() {
+            return;
+        }
+        rec(255, self.key as usize, HK::Note, Some(NOTE_LAZY_DROP + self.stamp * 16));
+    }
+}
+loom::lazy_static! {
+    static ref LAZY0: LazyVal = LazyVal::new(0);
+    static ref LAZY1: LazyVal = LazyVal::new(1);
+}
+pub fn set_lazy_init_yields(b: bool) {
+    LAZY_INIT_YIELDS.with(|c| c.set(b));
+}
 
 struct Env {
     p: StdArc<Program>,
@@ -665,7 +761,33 @@ fn exec(cx: &mut Ctx, op: &Op, pc: usize) -> Option<u64> {
             }
             None
         }
-        Op::TlsWith { .. } | Op::TlsNested { .. } | Op::LazyGet { .. } => unimplemented!(),
+        Op::TlsWith { k } => {
+            CUR_TID.with(|c| c.set(tid));
+            let before = TLS_INITED.with(|t| t.borrow()[tid as usize][k as usize]);
+            let owner = if k == 0 { KEY0.with(|v| { v.cell.with(|_| ()); v.owner }) } else { KEY1.with(|v| { v.cell.with(|_| ()); v.owner }) };
+            assert!(owner == tid, "VERIF-TLS-PRIVACY: thread {} accessed the thread-local of thread {}", tid, owner);
+            Some(!before as u64)
+        }
+        Op::TlsNested { k, j } => {
+            CUR_TID.with(|c| c.set(tid));
+            let bk = TLS_INITED.with(|t| t.borrow()[tid as usize][k as usize]);
+            let bj = TLS_INITED.with(|t| t.borrow()[tid as usize][j as usize]);
+            let inner = |v: &TlsVal| -> u8 {
+                v.cell.with(|_| ());
+                if j == 0 { KEY0.with(|w| { w.cell.with(|_| ()); w.owner }) } else { KEY1.with(|w| { w.cell.with(|_| ()); w.owner }) }
+            };
+            let owner = if k == 0 { KEY0.with(inner) } else { KEY1.with(inner) };
+            assert!(owner == tid, "VERIF-TLS-PRIVACY: nested access reached the thread-local of thread {}", owner);
+            let rk = !bk as u64;
+            let rj = if k == j { 0 } else { !bj as u64 };
+            Some(rk * 2 + rj)
+        }
+        Op::LazyGet { k } => {
+            CUR_TID.with(|c| c.set(tid));
+            let stamp = if k == 0 { let v: &LazyVal = &LAZY0; v.cell.with(|_| ()); v.stamp } else { let v: &LazyVal = &LAZY1; v.cell.with(|_| ()); v.stamp };
+            rec(tid, k as usize, HK::Note, Some(NOTE_LAZY_SEEN + stamp * 16));
+            None
+        }
         Op::StopExploring => {
             loom::stop_exploring();
             None
@@ -696,6 +818,8 @@ fn exec(cx: &mut Ctx, op: &Op, pc: usize) -> Option<u64> {
 
 fn model_body(p: StdArc<Program>) {
     gate_point();
+    TLS_INITED.with(|t| *t.borrow_mut() = vec![[false; 2]; MAX_THREADS]);
+    LAZY_STAMP.with(|c| c.set(0));
     let nt = p.n_threads();
     let mut senders = Vec::new();
     let mut receivers = Vec::new();
